@@ -30,7 +30,8 @@ from harness import gen
 from harness.lib import Family, Verdict, call, deep_eq, drive, jval
 
 RULE = ("integer-valued dense / sparse (sparsity some/all, stored order sorted/reversed/shuffled) / Kruskal "
-        "(ranks 1..3, weights of both signs) / Tucker (dense and sparse core) tensors of order 2..4 with extents "
+        "(ranks 1..3, weights of both signs) / Tucker (dense and sparse core; factor matrices numpy arrays or "
+        "scipy.sparse coo matrices - all of them, only mode n, all but mode n, a random subset) tensors of order 2..4 with extents "
         "1..5 incl. singleton modes, every mode n, a count r on each side of the switch r < size-1, both "
         "flipsign settings, plus dense / sparse / Tucker-core storage in uint8, int8, int16, int32, int64, float32 "
         "(bool for sparse) with magnitudes that overflow the dtype in a sum of products while X_(n)X_(n)^T stays "
@@ -38,7 +39,8 @@ RULE = ("integer-valued dense / sparse (sparsity some/all, stored order sorted/r
         "matrices built from signed permutations and 4x4 Hadamard blocks) returned in shuffled order for every "
         "mode, every 1<=r<=size and both flipsign settings (post_exact); planted Tucker structure with "
         "geometrically separated spectrum plus noise and random integer arrays held in all four "
-        "representations, every mode, every 1<=r<=size, both flipsign settings, real solvers (real_solver); "
+        "representations plus three Tucker holders with scipy.sparse factor matrices (all / even / odd modes, dense and "
+        "sparse core), every mode, every 1<=r<=size, both flipsign settings, real solvers (real_solver); "
         "non-trivial = accepted, more than one row, non-zero array; distinct = distinct case hash")
 ASSUMPTIONS = [
     "the eigen-solvers (ARPACK eigsh, LAPACK eigh/eig) enter the model as a service with the contract "
@@ -56,6 +58,9 @@ EXHAUSTIVE = {"quick": False, "thorough": False}
 
 TOL = 1e-8
 REPS = ("dense", "sparse", "ktensor", "ttensor")
+#: Tucker holders whose factor matrices are scipy.sparse coo matrices: all of them / the even modes / the odd modes
+#: (so that for every mode n there is a holder with factor n sparse next to dense ones, and one the other way round)
+REPS_SF = ("ttensor_sf_all", "ttensor_sf_even", "ttensor_sf_odd")
 
 
 # --------------------------------------------------------------------------------------------
@@ -159,7 +164,33 @@ def mk_dense_dt(shape_, data, dname):
     return ttb.tensor(np.array(data).reshape(tuple(shape_), order="F").astype(np_dtype(dname)), copy=True)
 
 
-def mk_obj(rep, x, dname=None):
+#: which factor matrices of a Tucker tensor are handed over as scipy.sparse.coo_matrix (the ttensor constructor
+#: accepts numpy arrays and coo matrices); relative to the mode n that nvecs is asked for, because the code
+#: switches on the type of factor n (product with the unfolded core) and forms F_k^T F_k of the others
+SF_PATTERNS = ("all", "only-n", "all-but-n", "some")
+
+
+def sf_flags(rng, N, n, pat):
+    if pat == "all":
+        return [True] * N
+    if pat == "only-n":
+        return [k == n for k in range(N)]
+    if pat == "all-but-n":
+        return [k != n for k in range(N)]
+    if pat == "some":
+        f = [rng.random() < 0.5 for _ in range(N)]
+        if not any(f):
+            f[rng.randrange(N)] = True
+        return f
+    return [False] * N
+
+
+def sf_wrap(f, on):
+    """the factor matrix as the Tucker constructor receives it"""
+    return scipy.sparse.coo_matrix(f) if on else f
+
+
+def mk_obj(rep, x, dname=None, sf=None):
     if rep == "dense":
         return mk_dense_dt(x["shape"], x["data"], dname)
     if rep == "sparse":
@@ -173,6 +204,8 @@ def mk_obj(rep, x, dname=None):
     if rep == "ttensor_sp":
         core = core.to_sptensor()
     facs = [np.array(f, dtype=float).reshape(len(f), x["core"]["shape"][k]) for k, f in enumerate(x["factors"])]
+    if sf:
+        facs = [sf_wrap(f, on) for f, on in zip(facs, sf)]
     return ttb.ttensor(core, facs)
 
 
@@ -312,6 +345,16 @@ class Gram(Family):
                 for n in range(len(s)):
                     for r in rs_for(rng, s[n], tier):
                         out.append({"rep": rep, "x": x, "n": n, "r": r, "flipsign": rng.random() < 0.5})
+        # Tucker tensors whose factor matrices are scipy.sparse coo matrices (added after mutant M1971): the same
+        # objects as above, every pattern relative to the mode asked for, counts on both sides of the solver switch
+        tk = [c for c in out if c["rep"] in ("ttensor", "ttensor_sp")]
+        for c in tk:
+            N = len(c["x"]["factors"])
+            pats = SF_PATTERNS if tier == "thorough" else rng.sample(SF_PATTERNS, 2)
+            for pat in pats:
+                if pat == "some" and N < 3:
+                    continue
+                out.append({**c, "flipsign": rng.random() < 0.5, "sf": sf_flags(rng, N, c["n"], pat), "sfpat": pat})
         # storage dtypes other than float64, magnitudes that overflow the dtype in a sum of products
         for rep, dnames in DTYPE_REPS.items():
             for dname in dnames:
@@ -329,6 +372,9 @@ class Gram(Family):
                         for r in rs:
                             out.append({"rep": rep, "x": x, "n": n, "r": r, "flipsign": rng.random() < 0.5,
                                         "dtype": dname})
+                            if rep.startswith("ttensor") and rng.random() < (0.5 if tier == "quick" else 1.0):
+                                pat = rng.choice(SF_PATTERNS[:3])
+                                out.append({**out[-1], "sf": sf_flags(rng, len(s), n, pat), "sfpat": pat})
         return out
 
     def evaluate(self, cases):
@@ -336,7 +382,7 @@ class Gram(Family):
         for c in cases:
             rep, x, n, r = c["rep"], c["x"], c["n"], c["r"]
             with Solvers() as rec:
-                res = call(lambda: mk_obj(rep, x, c.get("dtype")).nvecs(n, r, flipsign=c["flipsign"]))
+                res = call(lambda: mk_obj(rep, x, c.get("dtype"), c.get("sf")).nvecs(n, r, flipsign=c["flipsign"]))
             impls.append((res, rec.calls))
             mrep = "ttensor" if rep == "ttensor_sp" else rep
             reqs.append({"op": "nvecs_gram", "rep": mrep, "X": x, "n": n})
@@ -351,6 +397,8 @@ class Gram(Family):
             m = s[n]
             tags = [rep, f"N{len(s)}", f"path-{path_of(m, r)}", "singleton-mode" if 1 in s else "no-singleton",
                     "dtype-" + (c.get("dtype") or "float64")]
+            if rep.startswith("ttensor"):
+                tags.append("factors-sparse-" + c.get("sfpat", "none"))
             A = ARR[rep](x, dtype=object)  # exact integer arithmetic
             G_ref = jval(np.array(ref_gram(A, n), dtype=object).tolist())
             info = {"calls": [(cl["solver"], cl["argtype"]) for cl in calls]}
@@ -517,6 +565,10 @@ class PostExact(Family):
                         for fs in fss:
                             out.append({"rep": rep, "x": pc["x"], "n": n, "r": r, "flipsign": fs,
                                         "w": pc["w"], "V": pc["V"], "shuffle": gen.perm(rng, m)})
+                            if rep == "ttensor" and rng.random() < 0.5:
+                                pat = rng.choice(SF_PATTERNS[:3])
+                                out.append({**out[-1], "shuffle": gen.perm(rng, m), "sf": sf_flags(rng, len(s), n, pat),
+                                            "sfpat": pat})
         return out
 
     @staticmethod
@@ -543,7 +595,7 @@ class PostExact(Family):
         for c in cases:
             rep, x, n, r = c["rep"], c["x"], c["n"], c["r"]
             with Solvers(self.standin_for(c)) as rec:
-                res = call(lambda: mk_obj(rep, x).nvecs(n, r, flipsign=c["flipsign"]))
+                res = call(lambda: mk_obj(rep, x, None, c.get("sf")).nvecs(n, r, flipsign=c["flipsign"]))
             m = len(c["w"])
             path = path_of(m, r)
             # what the stand-in returned, in the order it returned it
@@ -578,6 +630,8 @@ class PostExact(Family):
             ident = ret is not None and list(np.argsort(-np.abs(ret[0]), kind="stable")) == list(range(len(ret[0])))
             tags = [rep, f"path-{path}", "flipsign" if c["flipsign"] else "noflip",
                     "already-sorted" if ident else "shuffled", f"m{m}"]
+            if rep == "ttensor":
+                tags.append("factors-sparse-" + c.get("sfpat", "none"))
             G = np.array(c["V"]) @ np.diag(c["w"]) @ np.array(c["V"]).T
             if "ok" not in res:
                 out.append(Verdict("violation", f"{rep}|raised|{res.get('exc')}: {res.get('msg')}", res, mpost, None, tags))
@@ -658,7 +712,21 @@ def holders(core, facs, stored_order, rng, dname=None):
     kf = [np.stack([facs[k][:, c[k]] for c in csubs], axis=1) for k in range(len(s))]
     K = ttb.ktensor(kf, w)
     Tk = ttb.ttensor(ttb.tensor(np.asfortranarray(core.astype(dt)), copy=True), [np.asfortranarray(f) for f in facs])
-    return A, {"dense": T, "sparse": S, "ktensor": K, "ttensor": Tk}
+    objs = {"dense": T, "sparse": S, "ktensor": K, "ttensor": Tk}
+    objs.update(sf_holders(core.astype(dt), facs))
+    return A, objs
+
+
+def sf_holders(core, facs):
+    """the Tucker holder again with scipy.sparse coo factor matrices (dense and sparse core alternate with the pattern)"""
+    out = {}
+    for name in REPS_SF:
+        on = [name.endswith("all") or (k % 2 == 0) == name.endswith("even") for k in range(len(facs))]
+        c = ttb.tensor(np.asfortranarray(core), copy=True)
+        if name.endswith("odd") and np.any(core != 0):
+            c = c.to_sptensor()
+        out[name] = ttb.ttensor(c, [sf_wrap(np.asfortranarray(f), o) for f, o in zip(facs, on)])
+    return out
 
 
 def shared_holders(rng, s, stored_order):
@@ -688,7 +756,10 @@ def shared_holders(rng, s, stored_order):
     for r in range(R):
         core[(r,) * N] = w[r]
     Tk = ttb.ttensor(ttb.tensor(np.asfortranarray(core), copy=True), [Af] * N, copy=False)
-    return A, {"dense": T, "sparse": S, "ktensor": K, "ttensor": Tk}
+    objs = {"dense": T, "sparse": S, "ktensor": K, "ttensor": Tk}
+    # (the sparse-factor holders are built with the copying constructor: copy=False refuses coo matrices)
+    objs.update(sf_holders(core, [Af] * N))
+    return A, objs
 
 
 class RealSolver(Family):
@@ -798,7 +869,7 @@ class RealSolver(Family):
                 continue
             Pref = evec[:, :r] @ evec[:, :r].T
             items, res_j = [], {}
-            for rep in REPS:
+            for rep in REPS + REPS_SF:
                 with Solvers() as rec:
                     res = call(lambda: objs[rep].nvecs(n, r, flipsign=fs))
                 if "ok" not in res:
